@@ -85,7 +85,13 @@ func (C05) OnCall(e *sim.Env, c *sim.Call) {
 		target = 1
 	}
 	if c.ApplyErr != nil {
-		e.Violate("C05", "updates-rejected/"+applyClass(c.ApplyErr.Error()), fmt.Sprintf("%s@%d: Tendermint's validator set refuses the updates: %v", c.Kind, h, c.ApplyErr), c)
+		cls := applyClass(c.ApplyErr.Error())
+		if cls == "empty-set" && c.Post.View != nil && len(expectedSet(c.Post.View)) == 0 {
+			// nobody is left who is staked and not jailed: the set the statement asks for is empty, which Tendermint
+			// cannot represent
+			cls = "empty-set/no-validator-left"
+		}
+		e.Violate("C05", "updates-rejected/"+cls, fmt.Sprintf("%s@%d: Tendermint's validator set refuses the updates: %v", c.Kind, h, c.ApplyErr), c)
 		return
 	}
 	e.Count("c05.sets_compared")
@@ -285,6 +291,15 @@ func (m *C06) OnCall(e *sim.Env, c *sim.Call) {
 	}
 	if msg, ok := stakeMsg(c); ok && deliverOK(c) && msg.Value.BigInt().Cmp(bi(cp.Min)) == 0 {
 		e.Count("c06.stakes_of_exactly_the_minimum_accepted")
+	}
+	// an EndBlock that dies while a matured validator waits for its stake never pays it
+	if c.Kind == "end" && c.Panic != "" && pre != nil {
+		for a, x := range pre.Vals {
+			if x.Status == 1 && !x.Unstaking.After(c.Time) {
+				e.Violate("C06", "payout-panics", fmt.Sprintf("EndBlock@%d panicked (%s) while validator %s (stake %v) was due for its payout (completion %v)", c.H, firstLine(c.Panic), a, x.Tokens, x.Unstaking), c)
+				break
+			}
+		}
 	}
 	// timely payout: after EndBlock nobody may still be unstaking past its completion time
 	if c.Kind == "end" && c.Panic == "" {
